@@ -116,9 +116,19 @@ class Gen:
         if not self.comments or r.random() > 0.12:
             return
         k = r.random()
-        if k < 0.5:
+        if k < 0.08:
+            # a line comment whose last non-blank character is a backslash, followed by blanks: NOT a continuation
+            self.hit("cmt:cpp-backslash-blank")
+            self.emit(depth, ["// see C:\\tmp\\" + r.choice([" ", "  ", "\t", " \t "])], "cmt")
+            # ISO C does not splice here, gcc/clang (and the specification lexer) do: keep the next line empty so that
+            # both readings give the same tokens
+            self.emit(depth, [], "blank")
+        elif k < 0.5:
             self.hit("cmt:cpp")
             self.emit(depth, ["// " + r.choice(["note", "TODO: x", "a  b", "x = y;", "end", "été ünï"])], "cmt")
+        elif k < 0.58:
+            self.hit("cmt:multi-starstar")
+            self.emit(depth, ["/*\n** second line, two-character leader\n** third\n*/"], "cmt")
         elif k < 0.85:
             self.hit("cmt:c")
             self.emit(depth, ["/* " + r.choice(["c", "multi word", "x*y", "a/b"]) + " */"], "cmt")
@@ -279,6 +289,11 @@ class Gen:
         elif k < 0.6:
             self.hit("pp:define")
             self.emit(0, ["#define " + r.choice(["N 10", "MAX(a,b) ((a) > (b) ? (a) : (b))", "FLAG", "STR \"s\"", "SQ(x) ((x)*(x))"])], "pp")
+        elif k < 0.68:
+            self.hit("pp:define-braces")
+            self.emit(0, ["#define " + r.choice(["CHK(x) do { if (x) { fa(); } else { fb(); } } while (0)",
+                                                  "TWO(n) int n##_a(void) { return 1; } int n##_b(void) { return 2; }",
+                                                  "BLK { g1(); } g2();"])], "pp")
         elif k < 0.75:
             self.hit("pp:define-multi")
             self.emit(0, ["#define SWAP(a, b) \\\n    do { int t = a; \\\n         a = b; b = t; \\\n    } while (0)"], "pp")
@@ -291,6 +306,22 @@ class Gen:
                 self.decl(0)
             self.emit(0, ["#endif"], "pp")
 
+    def cpp_class(self):
+        r = self.r
+        self.hit("top:class")
+        n = r.randrange(100)
+        self.emit(0, ["class", "K%d" % n, r.choice(["// base list follows:", "/* bases */", ""])], "head")
+        self.emit(1, [":", "public", "B%d" % n, ",", "private", "C%d" % n], "head")
+        self.emit(0, ["{"], "open")
+        self.emit(0, ["public", ":"], "case")
+        self.emit(1, ["K%d" % n, "(", "int", "a", ")", r.choice(["// trailing: x(1)", ""])], "head")
+        self.emit(2, [":", "x", "(", "a", ")", ",", "y", "(", "0", ")"], "head")
+        self.emit(1, ["{"], "open")
+        self.simple(2)
+        self.emit(1, ["}"], "close")
+        self.emit(1, ["int", "x", ",", "y", ";"])
+        self.emit(0, ["}", ";"], "close")
+
     def program(self, nfuncs=None):
         r = self.r
         if self.preproc:
@@ -298,6 +329,8 @@ class Gen:
                 self.directive()
         for _ in range(r.randrange(0, 3)):
             self.decl(0)
+        if self.lang == "CPP" and self.preproc and r.random() < 0.3:
+            self.cpp_class()
         for _ in range(nfuncs if nfuncs is not None else r.randrange(1, 4)):
             if self.preproc and r.random() < 0.2:
                 self.directive()
